@@ -50,12 +50,34 @@ def tla_to_json(txt):
     return json.loads(txt.replace("<<", "[").replace(">>", "]"))
 
 
+def parse_behaviours(out):
+    """TLC pretty-prints long tuples over several lines: find every << "BEH", ... >> by bracket matching."""
+    res = []
+    for m in re.finditer(r'<<\s*"BEH",', out):
+        i, depth = m.start(), 0
+        j = i
+        while j < len(out):
+            if out.startswith("<<", j):
+                depth += 1
+                j += 2
+                continue
+            if out.startswith(">>", j):
+                depth -= 1
+                j += 2
+                if depth == 0:
+                    break
+                continue
+            j += 1
+        res.append(tla_to_json(out[i:j])[1])
+    return res
+
+
 def export_behaviours(ctx, comp, depth, k, cap):
     cfg = ctx.path(f"mc_{comp}.cfg")
     open(cfg, "w").write(f'SPECIFICATION Spec\nCONSTANTS\n  Comp = "{comp}"\n  Depth = {depth}\n  K = {k}\nINVARIANTS Sane Export\n')
     r = vlib.run_tlc(ctx, os.path.join(SPEC, "AdtMC.tla"), cfg, workers=8, timeout=900, heap="6g", tag=f"mc_{comp}")
     vlib.tlc_must_ok(ctx, r, f"AdtMC {comp} depth {depth}")
-    beh = [tla_to_json(ln)[1] for ln in r.out.splitlines() if ln.startswith('<<"BEH"')]
+    beh = parse_behaviours(r.out)
     beh.sort(key=json.dumps)
     total = len(beh)
     if total > cap:                       # deterministic thinning keeps the run inside the tier budget
@@ -136,7 +158,7 @@ def run(ctx):
 
     # ---- 1. abstract types: model checking + behaviour export -------------------------------------------------
     params = {"tree": (6, 5, 4000), "list": (4, 4, 3000), "vector": (4, 0, 3000), "bitset": (3, 0, 3000)} if q else \
-             {"tree": (7, 6, 40000), "list": (5, 4, 30000), "vector": (5, 0, 30000), "bitset": (4, 0, 30000)}
+             {"tree": (7, 5, 30000), "list": (5, 3, 20000), "vector": (4, 0, 12000), "bitset": (3, 0, 12000)}
     scripts = fixed_scripts()
     mc_states = {}
     for comp, (depth, k, cap) in params.items():
@@ -153,14 +175,15 @@ def run(ctx):
 
     # ---- 2./3. execute on the real code -------------------------------------------------------------------------
     runs = []          # (tag, prefix)
-    rc, _, err = vlib.run_harness(ctx, bdir, "adt", ["script", sp, ctx.path("s")], timeout=900, env={"VERIF_SEED": ctx.seed})
-    if rc not in (0,):
-        raise Broken(f"harness script mode exit {rc}: {err[-1500:]}")
-    open(ctx.path("harness_script.err"), "w").write(err)
-    runs.append(("s", ctx.path("s")))
-    nshard, nexec, steps = (6, 40, 260) if q else (14, 260, 420)
+    nshard, nexec, steps = (6, 40, 260) if q else (14, 150, 400)
 
     def rnd(i):
+        if i < 0:
+            rc, _, err = vlib.run_harness(ctx, bdir, "adt", ["script", sp, ctx.path("s")], timeout=1500, env={"VERIF_SEED": ctx.seed})
+            open(ctx.path("s.err"), "w").write(err)
+            if rc != 0:
+                raise Broken(f"harness script mode exit {rc}: {err[-1500:]}")
+            return ("s", ctx.path("s"))
         pre = ctx.path(f"r{i}")
         rc2, _, err2 = vlib.run_harness(ctx, bdir, "adt", ["random", pre, nexec, steps], timeout=1200, env={"VERIF_SEED": int(ctx.seed) * 1000 + i})
         open(pre + ".err", "w").write(err2)
@@ -168,7 +191,8 @@ def run(ctx):
             raise Broken(f"harness random mode exit {rc2}: {err2[-1500:]}")
         return (f"r{i}", pre)
     with ThreadPoolExecutor(max_workers=8) as ex:
-        runs += list(ex.map(rnd, range(nshard)))
+        runs += list(ex.map(rnd, range(-1, nshard)))
+    ctx.log("harness runs done")
 
     # ---- 4. trace validation (one TLC per component and shard, in parallel) ------------------------------------
     tasks = []
@@ -185,7 +209,7 @@ def run(ctx):
                 continue
             nsh = 1
             if tag == "s":
-                nsh = max(1, min(8, len(execs) // 400))
+                nsh = max(1, min(6, len(execs) // 500))
             for j in range(nsh):
                 part = execs[j::nsh]
                 p = ctx.path(f"in_{comp}_{tag}_{j}.ndjson")
@@ -201,8 +225,10 @@ def run(ctx):
                                        tag=tag, timeout=1500, heap="3g", max_rejects=4)
         with lock:
             results.append((task, sub, rej))
+    tasks.sort(key=lambda t: -os.path.getsize(t[3]))          # longest first
     with ThreadPoolExecutor(max_workers=14) as ex:
         list(ex.map(validate, tasks))
+    ctx.log(f"{len(tasks)} trace files validated")
 
     nops = 0
     per_comp = {}
